@@ -1,10 +1,16 @@
-//! C04 — `MatrixGraph` histories: both edge types, `Option`/`NotZero<i32>` null elements, `u8`/`u16`
-//! indices, exact initial capacities 0..=9, node counts that cross the 4/8/16/32/64(/128) capacity
-//! steps with edges in place, removals, id reuse, ~10 % invalid arguments, the `u8` node limit.
+//! C04 — `MatrixGraph` histories: both edge types, `Option`/`NotZero<i32>` null elements,
+//! `u8`/`u16`/`u32`/`usize` indices, exact initial capacities 0..=40, node counts that cross the
+//! 4/8/16/32/64(/128) capacity steps with edges in place, removals, id reuse, ~10 % invalid arguments, the
+//! `u8` node limit, `from_edges`/`extend_with_edges` across capacity steps.
 //!
 //! Protocol (see lean/PetgraphModel/Driver/C04.lean): one line per call; after every mutating call a
 //! dump = `counts`, `nodes`, `erefs` and `row a` lines (all live nodes, or — in big graphs — the
-//! nodes the call touched, with a full dump at intervals and at the end).
+//! nodes the call touched, with a full dump at intervals and at the end).  Every list is printed in the
+//! ITERATION ORDER of the implementation (the driver judges the order).
+//! `capscan lo hi` reads the matrix capacity (not observable otherwise) off `try_update_edge(x, x, 1)` on ids
+//! beyond the bound (`Ok` iff `x` is below the capacity; undone by `try_remove_edge`).
+//! `zprobe a b` (last line of some `NotZero` cases) records what a zero written through `edge_weight_mut`
+//! does: outside the documented use of `NotZero`, compared with the model only.
 use crate::common::*;
 use crate::rng::Rng;
 use petgraph::data::Build;
@@ -164,6 +170,56 @@ where
             }
         }
     }
+    /// read the matrix capacity off `try_update_edge` on ids that are not nodes (all ids >= node_bound)
+    fn capscan(&mut self) {
+        let lo = self.g.node_bound();
+        let hi = (2 * lo.max(20) + 6).min(lo + 300).min(self.kmax.saturating_add(1));
+        if lo >= hi {
+            return;
+        }
+        let g = &mut self.g;
+        let r = catch(|| {
+            (lo..hi)
+                .map(|x| {
+                    let ok = g.try_update_edge(Self::ix(x), Self::ix(x), 1).is_ok();
+                    let _ = g.try_remove_edge(Self::ix(x), Self::ix(x));
+                    if ok {
+                        '1'
+                    } else {
+                        '0'
+                    }
+                })
+                .collect::<String>()
+        });
+        self.ctx.line(&format!("capscan {} {}", lo, hi), &r.unwrap_or_else(|| "panic".into()));
+    }
+    /// the sentinel written through `edge_weight_mut` of a `NotZero` graph (ends the case)
+    fn zprobe(&mut self, rng: &mut Rng) {
+        let es: Vec<(usize, usize)> = self.g.edge_references().map(|(s, t, _)| (s.index(), t.index())).collect();
+        if !self.nz || es.is_empty() {
+            return;
+        }
+        let (mut a, mut b) = es[rng.below(es.len())];
+        if !Ty::is_directed() && rng.chance(50) {
+            std::mem::swap(&mut a, &mut b);
+        }
+        let (ia, ib) = (Self::ix(a), Self::ix(b));
+        let r = catch(|| if a % 2 == 0 { *self.g.edge_weight_mut(ia, ib) = 0 } else { self.g[(ia, ib)] = 0 });
+        let g = &self.g;
+        let obs = catch(|| {
+            format!(
+                "he={} gw={} ec={} er={}",
+                g.has_edge(ia, ib),
+                opt(g.get_edge_weight(ia, ib).copied()),
+                g.edge_count(),
+                g.edge_references().count()
+            )
+        });
+        self.ctx.line(
+            &format!("zprobe {} {}", a, b),
+            &format!("{} {}", p_or(r, |_| "ok".into()), obs.unwrap_or_else(|| "panic".into())),
+        );
+    }
     fn pick_live(&self, rng: &mut Rng) -> usize {
         if self.live.is_empty() {
             return 0;
@@ -302,13 +358,13 @@ where
     /// one random call; `grow` = the phase that adds more than it removes
     fn op(&mut self, rng: &mut Rng, grow: bool, want_nodes: usize) {
         let n = self.live.len();
-        let ws: [u32; 10] = if grow && n < want_nodes {
-            //  add  edge+ edge-  node-  query wmut clear extend probe badrm
-            [30, 40, 5, 3, 9, 4, 0, 2, 4, 3]
+        let ws: [u32; 11] = if grow && n < want_nodes {
+            //  add  edge+ edge-  node-  query wmut clear extend probe badrm capscan
+            [30, 40, 5, 3, 9, 4, 0, 3, 4, 3, 2]
         } else if grow {
-            [6, 40, 12, 8, 14, 6, 1, 2, 6, 5]
+            [6, 40, 12, 8, 14, 6, 1, 3, 6, 5, 2]
         } else {
-            [10, 26, 18, 16, 12, 5, 1, 2, 5, 5]
+            [10, 26, 18, 16, 12, 5, 1, 2, 5, 5, 2]
         };
         let k = if n == 0 { 0 } else { rng.weighted(&ws) };
         match k {
@@ -409,12 +465,14 @@ where
             7 => {
                 // extend_with_edges: only when the live ids are 0..n (then the nodes it adds are n, n+1, …)
                 let contiguous = self.live.iter().enumerate().all(|(i, &x)| i == x) && self.g.node_bound() == n;
-                if contiguous && n + 3 < self.kmax && n < 60 {
+                if contiguous && n + 12 < self.kmax && n < 60 {
                     let m = 1 + rng.below(4);
+                    // sometimes a jump of several nodes at once (crosses a capacity step inside one call)
+                    let jump = if rng.chance(25) { 2 + rng.below(9) } else { 2 };
                     let mut es: Vec<(usize, usize, i32)> = vec![];
                     let mut top = n; // number of nodes after the elements so far
                     for _ in 0..m {
-                        let a = rng.below(top + 2);
+                        let a = rng.below(top + jump);
                         let b = rng.below(top + 2);
                         let dup = es.iter().any(|&(x, y, _)| (x, y) == (a, b) || (!Ty::is_directed() && (x, y) == (b, a)))
                             || (a < n && b < n && self.g.has_edge(Self::ix(a), Self::ix(b)));
@@ -432,6 +490,10 @@ where
                         self.dump(&t, false);
                     }
                 }
+            }
+            10 => {
+                self.capscan();
+                self.dump(&[], false);
             }
             8 => {
                 // edge-writing call with an endpoint that does not exist (outside the property: exact only)
@@ -520,7 +582,7 @@ fn run_case<Ty: EdgeType, Null: Nullable<Wrapped = i32>, Ix: IndexType>(
             (special.unwrap())()
         }
         3 => {
-            let n = 2 + rng.below(9);
+            let n = if rng.chance(25) { 10 + rng.below(30) } else { 2 + rng.below(9) };
             let m = 1 + rng.below(2 * n);
             let mut es: Vec<(usize, usize, i32)> = vec![];
             for _ in 0..m {
@@ -538,7 +600,7 @@ fn run_case<Ty: EdgeType, Null: Nullable<Wrapped = i32>, Ix: IndexType>(
             Default::default() // replaced below
         }
         _ => {
-            let k = rng.below(10);
+            let k = if rng.chance(20) { 10 + rng.below(31) } else { rng.below(10) };
             ctx.line(&format!("new with_capacity {}", k), "ok");
             MatrixGraph::with_capacity(k)
         }
@@ -554,6 +616,9 @@ fn run_case<Ty: EdgeType, Null: Nullable<Wrapped = i32>, Ix: IndexType>(
         }
     }
     run.dump(&[], true);
+    if rng.chance(50) {
+        run.capscan();
+    }
 
     if family == 3 {
         // the u8 node limit: 255 nodes (ids 0..=254), then the documented panic / Err
@@ -601,6 +666,10 @@ fn run_case<Ty: EdgeType, Null: Nullable<Wrapped = i32>, Ix: IndexType>(
             }
         }
         run.dump(&[], false);
+        run.capscan();
+        if rng.chance(50) {
+            run.zprobe(rng);
+        }
         return;
     }
 
@@ -621,6 +690,10 @@ fn run_case<Ty: EdgeType, Null: Nullable<Wrapped = i32>, Ix: IndexType>(
         run.op(rng, i < grow_ops, want_nodes);
     }
     run.dump(&[], true);
+    run.capscan();
+    if rng.chance(50) {
+        run.zprobe(rng);
+    }
 }
 
 pub fn run(ctx: &mut Ctx, case: u64) {
@@ -634,17 +707,29 @@ fn run_inner(ctx: &mut Ctx, case: u64) {
     let mut rng = Rng::for_case(ctx.seed, "C04", case);
     let dir = rng.chance(55);
     let nz = rng.chance(40);
-    let w8 = rng.chance(40);
-    match (dir, nz, w8) {
-        (true, false, true) => run_case::<Directed, Option<i32>, u8>(ctx, &mut rng, case, false, 8, None),
-        (true, false, false) => run_case::<Directed, Option<i32>, u16>(ctx, &mut rng, case, false, 16, Some(MatrixGraph::new)),
-        (true, true, true) => run_case::<Directed, NotZero<i32>, u8>(ctx, &mut rng, case, true, 8, None),
-        (true, true, false) => run_case::<Directed, NotZero<i32>, u16>(ctx, &mut rng, case, true, 16, None),
-        (false, false, true) => run_case::<Undirected, Option<i32>, u8>(ctx, &mut rng, case, false, 8, None),
-        (false, false, false) => {
-            run_case::<Undirected, Option<i32>, u16>(ctx, &mut rng, case, false, 16, Some(MatrixGraph::new_undirected))
-        }
-        (false, true, true) => run_case::<Undirected, NotZero<i32>, u8>(ctx, &mut rng, case, true, 8, None),
-        (false, true, false) => run_case::<Undirected, NotZero<i32>, u16>(ctx, &mut rng, case, true, 16, None),
+    // index width: u8 (the only one whose node limit is reachable), u16 (the default), u32, usize
+    let w = [8u32, 16, 32, 64][rng.weighted(&[34, 30, 18, 18])];
+    macro_rules! go {
+        ($ty:ty, $null:ty, $ix:ty, $special:expr) => {
+            run_case::<$ty, $null, $ix>(ctx, &mut rng, case, nz, w, $special)
+        };
+    }
+    match (dir, nz, w) {
+        (true, false, 8) => go!(Directed, Option<i32>, u8, None),
+        (true, false, 16) => go!(Directed, Option<i32>, u16, Some(MatrixGraph::new)),
+        (true, false, 32) => go!(Directed, Option<i32>, u32, None),
+        (true, false, _) => go!(Directed, Option<i32>, usize, None),
+        (true, true, 8) => go!(Directed, NotZero<i32>, u8, None),
+        (true, true, 16) => go!(Directed, NotZero<i32>, u16, None),
+        (true, true, 32) => go!(Directed, NotZero<i32>, u32, None),
+        (true, true, _) => go!(Directed, NotZero<i32>, usize, None),
+        (false, false, 8) => go!(Undirected, Option<i32>, u8, None),
+        (false, false, 16) => go!(Undirected, Option<i32>, u16, Some(MatrixGraph::new_undirected)),
+        (false, false, 32) => go!(Undirected, Option<i32>, u32, None),
+        (false, false, _) => go!(Undirected, Option<i32>, usize, None),
+        (false, true, 8) => go!(Undirected, NotZero<i32>, u8, None),
+        (false, true, 16) => go!(Undirected, NotZero<i32>, u16, None),
+        (false, true, 32) => go!(Undirected, NotZero<i32>, u32, None),
+        (false, true, _) => go!(Undirected, NotZero<i32>, usize, None),
     }
 }
